@@ -175,18 +175,28 @@ def gen_key(k):
     return k.split(" ")[0] if " " in k else k
 
 
-def exec_harness(prop, in_path, out_path, timeout=3600):
-    r = subprocess.run(["timeout", str(timeout), BIN, "exec", prop, in_path, out_path], stdout=subprocess.PIPE,
-                       stderr=subprocess.STDOUT, text=True)
+def _run_harness(args, what, timeout):
+    """stdout/stderr of the harness go to a file (code under test may print a lot, e.g. insert_mappings reports every change it
+    ignores); the tail is shown when the harness itself fails."""
+    env = dict(os.environ, RUST_BACKTRACE="0", RUST_LIB_BACKTRACE="0")
+    log_path = args[-1] + ".log"
+    with open(log_path, "w") as lf:
+        r = subprocess.run(["timeout", str(timeout), BIN] + args, stdout=lf, stderr=subprocess.STDOUT, env=env)
     if r.returncode != 0:
-        raise ToolError("vharness exec failed (%d): %s" % (r.returncode, r.stdout[-2000:]))
+        with open(log_path, "rb") as lf:
+            lf.seek(0, 2)
+            lf.seek(max(0, lf.tell() - 2000))
+            tail = lf.read().decode("utf-8", "replace")
+        raise ToolError("vharness %s failed (%d): %s" % (what, r.returncode, tail))
+    os.remove(log_path)
+
+
+def exec_harness(prop, in_path, out_path, timeout=3600):
+    _run_harness(["exec", prop, in_path, out_path], "exec", timeout)
 
 
 def gen_harness(prop, seed, n, out_path, timeout=3600):
-    r = subprocess.run(["timeout", str(timeout), BIN, "gen", prop, str(seed), str(n), out_path], stdout=subprocess.PIPE,
-                       stderr=subprocess.STDOUT, text=True)
-    if r.returncode != 0:
-        raise ToolError("vharness gen failed (%d): %s" % (r.returncode, r.stdout[-2000:]))
+    _run_harness(["gen", prop, str(seed), str(n), out_path], "gen", timeout)
 
 
 def read_ndjson(path):
